@@ -15,6 +15,7 @@ import (
 	"sort"
 	"sync"
 	"sync/atomic"
+	"time"
 )
 
 type PEvent struct {
@@ -138,7 +139,48 @@ func PoolSequential(pw *poolWriter, rng *rand.Rand, ty string, ch, l, k, steps, 
 			h := &held[hi]
 			v := h.v
 			e := &PEvent{Op: "Use", G: 1, ID: h.id, Res: "ok", Allocs: -1}
-			switch rng.Intn(6) {
+			switch rng.Intn(9) {
+			case 6: // a SECOND handle on the same storage (whole-capacity slice) writes one sample; the holder keeps the first
+				if v.Cap() == 0 {
+					continue
+				}
+				alt := v.Slice(0, k)
+				keep = append(keep, alt)
+				i, x := rng.Intn(alt.Len()), next()
+				alt.SetSample(i, x)
+				e.Kind, e.A = "SetSample", []int64{int64(i), x}
+			case 7: // the holder continues with a frame-0 slice; the ORIGINAL handle then outgrows its storage (moves away)
+				if ch == 0 || v.Len()%ch != 0 {
+					continue
+				}
+				fr := rng.Intn(k + 1)
+				nv := v.Slice(0, fr)
+				keep = append(keep, nv)
+				ids[nv.Raw()] = h.id
+				src := NewView(ty, allocator(ch, k+1, k+1))
+				src.Write(KindOf(ty), stamps(ch*(k+1)))
+				v.Append(src) // not an operation on the pooled storage any more: v now lives elsewhere
+				h.v = nv
+				v = nv
+				e.Kind, e.A = "Slice0", []int64{int64(fr)}
+			case 8: // the holder keeps only a frame-0 slice, drops every reference to the original, and a GC runs
+				fr := rng.Intn(k + 1)
+				nv := v.Slice(0, fr)
+				delete(ids, v.Raw())
+				for i := range keep {
+					if keep[i] == v {
+						keep[i] = nv
+					}
+				}
+				keep = append(keep, nv)
+				ids[nv.Raw()] = h.id
+				h.v = nv
+				v = nil
+				runtime.GC()
+				runtime.GC()
+				time.Sleep(2 * time.Millisecond) // finalizers, if any, run on their own goroutine
+				v = nv
+				e.Kind, e.A = "Slice0", []int64{int64(fr)}
 			case 0:
 				x := next()
 				v.AppendSample(x)
